@@ -1,6 +1,7 @@
 import E3fpVerif.DriverDb
 import E3fpVerif.Model.Metrics
 import E3fpVerif.Model.MetricsDispatch
+import E3fpVerif.Model.Csr
 namespace E3fpVerif
 open Lean
 
@@ -29,7 +30,15 @@ def simJ : Sim → Json
   | .q v => qJ v
   | .root n r => pairJ (n, r)
 
+def jCsr (j : Json) : Except String Csr := do
+  return { data := ← jList jRat (← jField j "data"), indices := ← jList jNat (← jField j "indices"),
+           indptr := ← jList jNat (← jField j "indptr") }
+
 def metricsOp (op : String) (j : Json) : Except String Json := do
+  if op == "met.csr_soergel" then
+    -- the sparse Soergel kernel on raw CSR arrays (Model/Csr: the index-walking loop itself)
+    let X ← jCsr (← jField j "X"); let Y ← jCsr (← jField j "Y")
+    return okJ (Json.arr ((X.soergel Y).map (fun r => Json.arr (r.map ratToJson).toArray)).toArray)
   let m ← jStr (← jField j "m")
   match op with
   | "met.dispatch" =>
